@@ -6,7 +6,7 @@ state register.  NOT decided: equality of the per-document equation system with 
 """
 import itertools
 from .. import facts, eq
-from ..facts import AnalysisBroken, locstr
+from ..facts import AnalysisBroken, locstr, strip, sub
 
 TU = ['src/uscxml/transform/ChartToVHDL.cpp']
 CLS = 'uscxml::ChartToVHDL'
@@ -440,6 +440,23 @@ def run(rep, tier):
     called = {n.get('callee', {}).get('q', '').split('::')[-1] for n in ms.walk() if n['k'] == 'CXXMemberCallExpr'}
     for w in WRITERS:
         rep.check(w in called, 'R18.5', 'writeMicroStepper calls %s' % w, locstr(ms.d.get('body', ms.d)), '%s is %s by writeMicroStepper' % (w, 'called' if w in called else 'NOT called'))
+
+    # ---- R18.7 no combinational cycle through the spontaneous gate
+    rep.rule('R18.7', 'the equations define a function: the signal that gates event transitions (spontaneous_active) is computed from the ENABLED eventless transitions, not from the selected ones, whose selection depends (through the conflict terms) on those event transitions again')
+    wsel = fb.fn('uscxml::ChartToVHDL::writeOptimalTransitionSetSelection')
+    feeds = []
+    for n in wsel.walk():
+        if n['k'] == 'CXXOperatorCallExpr' and n.get('op') == '+=' and len(n.get('c', [])) > 2:
+            l = strip(n['c'][1])
+            names = {x.get('ref', {}).get('name') for x in sub(l)} if l is not None else set()
+            if any('pontaneo' in (nm or '') and 'ctive' in (nm or '') for nm in names):
+                lits = [x.get('str') or '' for x in sub(n['c'][2]) if x['k'] == 'StringLiteral']
+                feeds.append((n, lits))
+    if not feeds:
+        raise AnalysisBroken('writeOptimalTransitionSetSelection: the terms of spontaneous_active were not found')
+    from_selected = [n for n, lits in feeds if any('in_optimal_transition_set_' in l for l in lits)]
+    rep.check(not from_selected, 'R18.7', 'writeOptimalTransitionSetSelection|spontaneous_active', locstr(feeds[0][0]), 'spontaneous_active is the OR of %s' % (
+        'enabled eventless transitions' if not from_selected else 'the SELECTED eventless transitions (in_optimal_transition_set_*): an enabled event transition in a descendant that conflicts with an eventless transition of an ancestor makes the equations cyclic - two consistent solutions, a delta-cycle evaluation toggles forever'))
 
 
 def elems_of_index(ix):
